@@ -140,6 +140,9 @@ class Interp:
         self.entry_args = entry_args
         self.dead_edges = set()
         self.cur_state = None
+        self.edges = set()
+        self._idom = None
+        self._reach = {}
         self.type_tests = dict(type_tests or {})
         self.entry_facts = frozenset(entry_facts or ())
         self.run()
@@ -323,7 +326,7 @@ class Interp:
         if isinstance(v, tuple) and v:
             if v[0] == "ref":
                 return v[1]
-            if v[0] == "ptr":
+            if v[0] in ("ptr", "slice"):
                 return (("M", v), ())
         return (("D", v), ())
 
@@ -599,6 +602,7 @@ class Interp:
             st = self.in_state[gid].copy()
             outs = self.step(gid, st)
             for (succ, ost) in outs:
+                self.edges.add((gid, succ))
                 if succ not in self.in_state:
                     self.in_state[succ] = ost
                     work.add(succ)
@@ -861,6 +865,77 @@ class Interp:
         if ust is not None:
             res += [(s, ust) for s in unwind]
         return res
+
+    # ------------------------------------------------------------------ CFG restricted to the edges taken under this arm assignment
+    def _succs(self, g, normal_only=True):
+        out = []
+        for (s, k) in self.g.nodes[g].succs:
+            if normal_only and k != "normal":
+                continue
+            if (g, s) in self.edges:
+                out.append(s)
+        return out
+
+    def dominators(self):
+        if self._idom is not None:
+            return self._idom
+        entry = self.g.entry.bmap[0]
+        # reverse post-order over taken normal edges
+        seen = {entry}
+        order = []
+        stack = [(entry, iter(self._succs(entry)))]
+        while stack:
+            g, it = stack[-1]
+            nxt = next(it, None)
+            if nxt is None:
+                order.append(g)
+                stack.pop()
+            elif nxt not in seen:
+                seen.add(nxt)
+                stack.append((nxt, iter(self._succs(nxt))))
+        order.reverse()
+        idx = {g: i for i, g in enumerate(order)}
+        preds = {}
+        for g in order:
+            for s in self._succs(g):
+                preds.setdefault(s, []).append(g)
+        idom = {entry: entry}
+        changed = True
+        while changed:
+            changed = False
+            for g in order[1:]:
+                ps = [p for p in preds.get(g, []) if p in idom]
+                if not ps:
+                    continue
+                new = ps[0]
+                for p in ps[1:]:
+                    a, b = p, new
+                    while a != b:
+                        while idx[a] > idx[b]:
+                            a = idom[a]
+                        while idx[b] > idx[a]:
+                            b = idom[b]
+                    new = a
+                if idom.get(g) != new:
+                    idom[g] = new
+                    changed = True
+        self._idom = idom
+        return idom
+
+    def reachable_from(self, g, normal_only=True):
+        key = (g, normal_only)
+        r = self._reach.get(key)
+        if r is None:
+            r = set()
+            st = [g]
+            while st:
+                x = st.pop()
+                for s in self._succs(x, normal_only):
+                    if s not in r:
+                        r.add(s)
+                        st.append(s)
+            self._reach[key] = r
+        return r
 
     # ------------------------------------------------------------------ queries
     def all_effects(self, kinds=None):
